@@ -72,8 +72,7 @@ Definition crop (cls : ty) (v : texp) : texp :=
 Definition is_const_bit (e : bexp) : bool := match e with BConst _ => true | _ => false end.
 Definition is_const (v : texp) : bool := forallb is_const_bit (snd v).
 
-(* the boolean an element of a constant list stands for; `if x` of bool_list_to_bin
-   on a non-constant sympy object is True (used by QfixedImp.mul) *)
+(* the boolean an element of a constant list stands for (`if x` of bool_list_to_bin) *)
 Definition truthy (e : bexp) : bool := match e with BConst b => b | _ => true end.
 
 Definition bitwise_not (v : texp) : texp := (fst v, map BNot (snd v)).
@@ -416,6 +415,8 @@ Definition qfixed_mul (cls : ty) (tl tr : texp) : option texp :=
        else None in
      obind sel (fun ct =>
        let '(tconst, top) := ct in
+       if negb (is_const tconst) then None            (* a non-constant multiplier is rejected *)
+       else
        match snd tconst with
        | [] => None                                   (* int('', 2): ValueError *)
        | cb =>
